@@ -106,6 +106,7 @@ class State:
         s.cur_exc = self.cur_exc
         s.gen_out = list(self.gen_out) if self.gen_out is not None else None
         s.notes = list(self.notes)
+        s._mvt = dict(getattr(self, "_mvt", {}))
         return s
 
     @property
@@ -160,11 +161,24 @@ class State:
                 self.assume(z3.And(t >= 0, t < self.alloc))
             else:
                 self.assume(z3.And(t > 0, t < self.alloc))
+            cc = self.class_cond(T, t)
+            if cc is not None:
+                self.assume(z3.Or(t == 0, cc) if is_nullable(T) else cc)
         elif isinstance(T, ty.Opt):
             self._typing(v.inner, T.inner)
         elif isinstance(T, ty.Tup):
             for it, Ti in zip(v.items, T.items):
                 self._typing(it, Ti)
+
+    def class_cond(self, T, t):
+        """Dynamic class of a statically typed reference."""
+        from .values import const_id
+        if isinstance(T, ty.Exc):
+            return self.cls_of(t) == const_id("class:<exc>")
+        if isinstance(T, ty.Ref) and T.cls in self.schema.classes:
+            subs = [n for n in self.schema.classes if T.cls in self.schema.mro(n)]
+            return z3.Or([self.cls_of(t) == const_id(f"class:{n}") for n in subs])
+        return None
 
     def new_obj(self, cls, T=None):
         addr = self.alloc
@@ -223,7 +237,41 @@ class State:
         _, vals, _ = self.map_arrays(m.T)
         terms = tuple(z3.Select(z3.Select(a, m.t), k) for a in vals)
         v = unflatten(m.T.val, terms)
+        self._map_value_typing(m)
         return v
+
+    def _map_value_typing(self, m):
+        """Values stored under a key are well-typed references (instantiated
+        on demand): forall k. k in d -> 0 < d[k] < alloc."""
+        VT = m.T.val
+        if not isinstance(VT, (ty.Ref, ty.Map, ty.Lst)) or is_nullable(VT):
+            return
+        dom = self.map_dom(m)
+        _, vals, _ = self.map_arrays(m.T)
+        varr = z3.Select(vals[0], m.t)
+        key = (dom.get_id(), varr.get_id())
+        if not hasattr(self, "_mvt"):
+            self._mvt = {}
+        if key in self._mvt:
+            q = self._mvt[key][2]
+            if not any(x is q for x in self.qhyps):
+                self.qhyps.append(q)
+            return
+        alloc = self.alloc
+        cc = self.class_cond(VT, z3.Int("cc!probe"))
+        clsarr = self.heap[("<obj>", "cls")][0] if cc is not None else None
+
+        def body(k, dom=dom, varr=varr, alloc=alloc, clsarr=clsarr, VT=VT):
+            v = z3.Select(varr, k)
+            conds = [v > 0, v < alloc]
+            if clsarr is not None:
+                from .values import const_id
+                subs = [n for n in self.schema.classes if VT.cls in self.schema.mro(n)]
+                conds.append(z3.Or([z3.Select(clsarr, v) == const_id(f"class:{n}") for n in subs]))
+            return z3.Implies(z3.Select(dom, k), z3.And(conds))
+        q = QHyp(m.T.key.comps[0], body, "map-value-typing")
+        self._mvt[key] = (dom, varr, q)
+        self.qhyps.append(q)
 
     def map_set(self, m, k, v):
         dom, vals, ln = self.map_arrays(m.T)
